@@ -3,8 +3,8 @@ per-sender order preserved, nothing handled that was refused or never sent"""
 import native
 
 
-def run_native(threads, msgs, yields, end, tl):
-    out, _, rc, err = native.run('dequeue', threads=threads, msgs=msgs, yields=yields, end=end, tl=1 if tl else 0, timeout=60)
+def run_native(threads, msgs, yields, end, tl, supevts=0):
+    out, _, rc, err = native.run('dequeue', threads=threads, msgs=msgs, yields=yields, end=end, tl=1 if tl else 0, supevts=supevts, timeout=90)
     if rc != 0:
         raise RuntimeError('native dequeue failed: ' + err[-300:])
     f = lambda k: [int(x) for x in out.get(k, '').split(',') if x]
@@ -42,7 +42,11 @@ def battery(tl_too=True):
     for tl in ((False, True) if tl_too else (False,)):
         for (threads, msgs, yields, end) in ((1, 6, 0, 'drain'), (3, 5, 1, 'drain'), (2, 300, 1, 'stop'), (2, 300, 2, 'kill')):
             o = run_native(threads, msgs, yields, end, tl)
-            res.append({'threads': threads, 'msgs': msgs, 'yields': yields, 'end': end, 'thread_local': tl, 'handled': len(o['handled']), 'accepted': len(o['sent_ok']), 'terms': o['terms'], 'violated': violated(o, end)})
+            res.append({'threads': threads, 'msgs': msgs, 'yields': yields, 'end': end, 'thread_local': tl, 'supervision_events': 0, 'handled': len(o['handled']), 'accepted': len(o['sent_ok']), 'terms': o['terms'], 'violated': violated(o, end)})
+        # a supervisor under load: messages and supervision events arrive from two OS threads at once, then the actor is drained
+        o = run_native(1, 4000, 0, 'drain', tl, supevts=20000)
+        res.append({'threads': 1, 'msgs': 4000, 'yields': 0, 'end': 'drain', 'thread_local': tl, 'supervision_events': 20000, 'handled': len(o['handled']), 'accepted': len(o['sent_ok']),
+                    'terms': o['terms'], 'violated': violated(o, 'drain')})
     return res
 
 
